@@ -41,6 +41,7 @@ HostileKeys == {"__proto__", "constructor", "toString", "hasOwnProperty", "value
 \* closed universe of numerals used by generators; semantic facts the spec needs about them
 Numerals == {"0", "1", "2", "-1", "0.5", "NaN", "Infinity", "1e+21"}
 NumGE0   == {"0", "1", "2", "0.5", "Infinity", "1e+21"}
+NumGE1   == {"1", "2", "Infinity", "1e+21"}
 NumInt   == {"0", "1", "2", "-1", "1e+21"}
 
 \* JSON-representable (for C02): finite numbers, strings, booleans, null, arrays, plain objects
